@@ -274,4 +274,18 @@ def guardFails (i : Instr) (s : State) : Bool :=
     | _, _ => false
   | _ => false
 
+/-- the documented guards of the three `*VECTOR.RAND` instructions, failing although every operand is present -/
+def randGuardFails (i : Instr) (s : State) : Bool :=
+  match i with
+  | .vec .i .rand => match s.int with
+    | size :: mx :: mn :: _ => size < 0 || mx ≤ mn
+    | _ => false
+  | .vec .b .rand => match s.int, s.float with
+    | n :: _, sp :: _ => n < 0 || !(sp ≥ 0 && sp ≤ 1)
+    | _, _ => false
+  | .vec .f .rand => match s.int, s.float with
+    | n :: _, _ :: sd :: _ => n < 0 || sd < 0 || !sd.isFinite
+    | _, _ => false
+  | _ => false
+
 end Pushr.C10
